@@ -74,7 +74,9 @@ class PathBasedRoutingProblem(RoutingProblem):
             # must be at least 2 stops long
             return False, cost, visits_node
 
-        route_indices = candidate_route
+        # (names are converted in place in a list; any other sequence is copied)
+        route_indices = candidate_route if isinstance(candidate_route, list) \
+            else list(candidate_route)
         # Convert from list of string node names to indices if necessary
         # (rest are done on the fly)
         check_indexes = (0, 1, -1)
@@ -250,13 +252,15 @@ class PathBasedRoutingProblem(RoutingProblem):
         # However, visits_node is an indicator array,
         #   and will be the incorrect length if nodes are added.
         # Convert to a list of node indices as well
+        # check_route converts node names to indices in place
+        route = list(route)
         feas, cost, visits_node = self.check_route(route)
         visits_node_indices = np.flatnonzero(visits_node)
         added = False
         # Routes are stored as lists; compare as a list so that a route given as
         # a tuple or an array is recognized when it is already stored
-        if feas and list(route) not in self.routes:
-            self.routes.append(list(route))
+        if feas and route not in self.routes:
+            self.routes.append(route)
             self.route_costs.append(cost)
             self.route_node_visited.append(visits_node_indices)
             added = True
